@@ -1,11 +1,104 @@
-import ErgVerif.C18.Model
+import ErgVerif.C18.Proofs
 /-!
 # C18 — The JSON transpile target emits valid JSON with the bound values
+
+Property theorems only. Spec: `Json.parse` (RFC 8259 parser, `ErgVerif/C18/Model.lean`), `denoteModule` (the object that
+maps every public binding to the value its initialiser spells; literals are read from their *tokens*). Model: `jsonGen`,
+the transcription of `JsonGenerator` after the `fix:` commits; `legacyJsonGen` is the generator of the pinned commit.
+`isConstModule m`: every binding of `m` (public or private, in any order) has a constant initialiser — integer, float,
+string over arbitrary characters, boolean, None, list, tuple, record, string-keyed dict, nested to any depth — and every
+literal's value is what its token spells (`litOk`, checked on every case of the tie; for floats: the value's shortest
+round-trip text is a JSON number that is not an integer form).
 -/
 namespace ErgVerif.C18
+open Json
 
-/-- non-vacuity: a two-binding module -/
-example : jsonGen [⟨true, ['a'], ['l'], .lit .nat ['1'] (.nat 1)⟩, ⟨true, ['b'], ['m'], .lit .bool ['T','r','u','e'] (.bool true)⟩]
-    = .ok "{\n\"a\": 1,\n\"b\": true\n}".toList := by decide
+/-- Sanity of the specification: the parser reads back every value from its compact print. -/
+theorem C18_parse_print (j : JVal) (h : wfV j = true) : parse (print j) = some j :=
+  parse_printVal _ (fun _ => compact_ws) 0 j h
+
+/-- … and from every print that puts white space where the grammar allows it (after `[ { , :` and before `] }`). -/
+theorem C18_parse_print_layout (L : Nat → Lay) (hL : ∀ d, LayWs (L d)) (d : Nat) (j : JVal) (h : wfV j = true) :
+    parse (printVal L d j) = some j :=
+  parse_printVal L hL d j h
+
+/-- Every string — any characters: quotes, backslashes, controls, NUL, non-BMP — survives `json_str` and the parser. -/
+theorem C18_string_roundtrip (s : List Char) : parse (jsonStr s) = some (.str s) := by
+  have := C18_parse_print (.str s) rfl
+  simpa [print, printVal, jsonStr] using this
+
+/-- Every integer is emitted as a JSON number that reads back as that integer. -/
+theorem C18_int_roundtrip (i : Int) : valueIntoJson (.int i) = some (intText i) ∧ parse (intText i) = some (.int i) := by
+  refine ⟨rfl, ?_⟩
+  have := C18_parse_print (.int i) rfl
+  simpa [print, printVal] using this
+
+/-- **C18**: for every module of constant bindings the generator succeeds and its output parses as JSON to exactly the
+    object that maps each public binding, in order, to the value of its initialiser. Nesting depth, string contents,
+    integer sizes, the number of bindings and the position of private bindings are unbounded. -/
+theorem C18_full (m : Module) (h : isConstModule m = true) :
+    ∃ t, jsonGen m = .ok t ∧ parse t = some (denoteModule m) := by
+  obtain ⟨h1, h2⟩ := jsonGen_const m h
+  exact ⟨_, h1, parse_printVal ergLay ergLay_ws 0 _ h2⟩
+
+/-- The generator never declines a module of constant bindings. -/
+theorem C18_no_decline (m : Module) (h : isConstModule m = true) : ∀ n, jsonGen m ≠ .err n := by
+  intro n e
+  obtain ⟨t, ht, _⟩ := C18_full m h
+  rw [ht] at e
+  cases e
+
+/-! ### witnesses: the generator of the pinned commit, and the recorded finding -/
+
+def wBool : Module := [⟨true, ['a'], ['l'], .lit .bool ['T', 'r', 'u', 'e'] (.bool true)⟩]
+def wQuote : Module := [⟨true, ['b'], ['l'], .lit .str ['"', 'q', '"', 'x', '"'] (.str ['q', '"', 'x'])⟩]
+def wNumber : Module := [⟨true, ['a'], ['l'], .lit .nat ['1', '_', '0', '0', '0'] (.nat 1000)⟩]
+def wTrailing : Module := [⟨true, ['a'], ['l'], .lit .nat ['1'] (.nat 1)⟩, ⟨false, ['b'], ['m'], .lit .nat ['2'] (.nat 2)⟩]
+
+/-- pinned commit: `.a = True` was emitted as `"a": True`, which is not JSON; the fixed generator emits `true`. -/
+theorem C18_legacy_bool_witness :
+    isConstModule wBool = true ∧ parse (legacyJsonGen wBool) = none
+      ∧ jsonGen wBool = .ok "{\n\"a\": true\n}".toList := by decide
+
+/-- pinned commit: `.b = "q\"x"` was emitted with the quote unescaped. -/
+theorem C18_legacy_quote_witness :
+    isConstModule wQuote = true ∧ parse (legacyJsonGen wQuote) = none
+      ∧ jsonGen wQuote = .ok "{\n\"b\": \"q\\\"x\"\n}".toList := by decide
+
+/-- pinned commit: `.a = 1_000` was emitted with the token's spelling. -/
+theorem C18_legacy_number_witness :
+    isConstModule wNumber = true ∧ parse (legacyJsonGen wNumber) = none
+      ∧ jsonGen wNumber = .ok "{\n\"a\": 1000\n}".toList := by decide
+
+/-- pinned commit: a private definition after the last public one left a dangling comma. -/
+theorem C18_legacy_separator_witness :
+    isConstModule wTrailing = true ∧ legacyJsonGen wTrailing = "{\n\"a\": 1,\n\n}".toList ∧ parse (legacyJsonGen wTrailing) = none
+      ∧ jsonGen wTrailing = .ok "{\n\"a\": 1\n}".toList := by decide
+
+/-- the token and value the front end produces for `.a = "\"\"Z\"\""` (finding `C18-str-quote-trim`) -/
+def wTrim : Module := [⟨true, ['a'], ['l'], .lit .str ['"', '"', '"', 'Z', '"', '"', '"'] (.str ['Z'])⟩]
+
+/-- Recorded finding: `ValueObj::from_str` gives the literal `"\"\"Z\"\""` the value `Z`; the hypothesis `litOk` of
+    `C18_full` fails exactly there, the class predicate holds, and the emitted JSON is valid but binds the wrong value. -/
+theorem C18_quote_trim_witness :
+    isConstModule wTrim = false ∧ quoteTrimClass ['"', '"', '"', 'Z', '"', '"', '"'] = true
+      ∧ (∃ t, jsonGen wTrim = .ok t ∧ parse t = some (.obj (.cons ['a'] (.str ['Z']) .nil)))
+      ∧ denoteModule wTrim = .obj (.cons ['a'] (.str ['"', '"', 'Z', '"', '"']) .nil) := by
+  refine ⟨by decide, by decide, ⟨_, rfl, by decide⟩, by decide⟩
+
+/-! ### non-vacuity -/
+
+/-- a module with a private binding in the middle, nesting three deep, a string of awkward characters, a negative integer -/
+def exModule : Module :=
+  [⟨true, ['a'], ['1'], .dict (.cons (.lit .str ['"', 'k', '"'] (.str ['k']))
+      (.list (.cons (.tuple (.cons (.lit .int ['-', '7'] (.int (-7))) (.cons (.lit .none ['N', 'o', 'n', 'e'] .none) .nil))) .nil)) .nil)⟩,
+   ⟨false, ['p'], ['2'], .lit .nat ['0', 'x', '1', '0'] (.nat 16)⟩,
+   ⟨true, ['s'], ['3'], .record (.cons ['x'] (.lit .str ['"', '"', '\\', '\n', Char.ofNat 0, '"'] (.str ['"', '\\', '\n', Char.ofNat 0])) .nil)⟩]
+
+example : isConstModule exModule = true := by decide
+
+example : jsonGen exModule = .ok "{\n\"a\": {\"k\": [[-7, null]]},\n\"s\": {\"x\": \"\\\"\\\\\\n\\u0000\"}\n}".toList := by decide
+
+example : ∃ t, jsonGen exModule = .ok t ∧ parse t = some (denoteModule exModule) := C18_full exModule (by decide)
 
 end ErgVerif.C18
